@@ -450,7 +450,6 @@ func c08Limbs(r *core.Run, p *core.Program, variant string) {
 	}
 }
 
-
 func c08Alias(r *core.Run, p *core.Program) {
 	const rule = "R-C08-alias"
 	sp := p.SSAPkg("lib/secp256k1")
@@ -493,7 +492,6 @@ func c08Alias(r *core.Run, p *core.Program) {
 	}
 	r.Check(n >= 4, rule, "floor/in-place-operations", "-", fmt.Sprintf("%d in-place capable operations analysed", n), fmt.Sprintf("only %d in-place capable group operations found", n))
 }
-
 
 func c08Mag(r *core.Run, p *core.Program, variant string) {
 	const rule = "R-C08-mag"
